@@ -11,8 +11,8 @@
 EXTENDS D_Wb2Native, D_WbEq, R_WbMem, TLC
 CONSTANTS PATH, R, NW, SELS, HOLD, VALS, COVER, LMIN, LMAX, STALL, WMAX, BUG
 \* PATH = "narrow": D_Wb2Native with R lanes;  PATH = "equal": D_WbEq (R must be 1; BUG is its VAR)
-VARIABLES r, m, mo, mem, q, stallc, obs, lastbad, wcnt, seen
-vars == <<r, m, mo, mem, q, stallc, obs, lastbad, wcnt, seen>>
+VARIABLES r, m, mo, mem, q, stallc, obs, lastbad, wcnt, seen, lastack
+vars == <<r, m, mo, mem, q, stallc, obs, lastbad, wcnt, seen, lastack>>
 
 NA == R * NW
 Cfg == [wb |-> 1, pb |-> R, base |-> 0, bound |-> WMAX]
@@ -26,7 +26,7 @@ Init == /\ r = IF Narrow THEN BInit(R) ELSE EInit
         /\ mo = [cmd_ready |-> 0, wdata_ready |-> 0, rdata_valid |-> 0, rdata |-> Garbage]
         /\ mem = [B \in 0..NA - 1 |-> BmInitByte(B)]
         /\ q = <<>> /\ stallc = 0
-        /\ obs = WbInit /\ lastbad = {} /\ wcnt = 0 /\ seen = {}
+        /\ obs = WbInit /\ lastbad = {} /\ wcnt = 0 /\ seen = {} /\ lastack = 0
 
 \* master outputs allowed in the next cycle, given the monitor state after this cycle
 \* symbolic data: a write always carries a value different from what the requirement currently allows at that byte
@@ -97,6 +97,7 @@ Tick ==
      /\ lastbad' = res.bad
      /\ wcnt' = IF res.s.pend /\ WMAX > 0 THEN wcnt + 1 ELSE 0          \* WMAX = 0 switches the progress bound off
      /\ seen' = IF COVER THEN seen \cup Goals ELSE seen
+     /\ lastack' = IF COVER THEN o.ack ELSE 0          \* ghost for stimulus extraction (-simulate): ACK of the cycle just executed
      /\ mem' = mem1
      /\ q' = q2
      /\ m' \in NextMaster(res.s)
@@ -113,6 +114,19 @@ Tick ==
 
 Spec == Init /\ [][Tick]_vars
 
+\* ---------------------------------------------------------------- stimulus goals (binding B3)
+\* Named corner situations of the narrow path.  TLC run with INVARIANT NotGoal_x yields a SHORTEST behaviour of the closed
+\* system reaching x; the harness replays its master operations and memory timing on the real bridge (harness/busmem.py).
+RdReq == m.cyc = 1 /\ m.stb = 1 /\ m.we = 0
+WrReq == m.cyc = 1 /\ m.stb = 1 /\ m.we = 1
+NotGoal_write_to_cached_word == ~(Narrow /\ r.fsm = "CMD" /\ r.rc_valid = 1 /\ WrReq /\ m.cti = 7 /\ m.sel = 1 /\ r.rc_addr = m.a \div R)
+NotGoal_access_behind_aborted_read == ~(Narrow /\ r.fsm = "READ_DATA" /\ r.aborted = 1 /\ m.cyc = 1 /\ m.stb = 1 /\ m.cti = 7)
+NotGoal_drop_in_read_cmd_cache_valid == ~(Narrow /\ r.fsm = "READ_CMD" /\ m.cyc = 0 /\ r.rc_valid = 1)
+NotGoal_pending_merge_other_word == ~(Narrow /\ r.fsm = "CMD" /\ r.wr_valid = 1 /\ WrReq /\ m.cti = 7 /\ r.wr_addr # m.a \div R)
+NotGoal_cache_hit_last_beat == ~(Narrow /\ r.fsm = "CMD" /\ RdReq /\ r.wr_valid = 0 /\ DwHit(R, r, [a |-> m.a]) /\ m.cti = 7)
+NotGoal_write_cmd_stalled_master_gone == ~(Narrow /\ r.fsm = "WRITE_CMD" /\ r.wr_valid = 1 /\ m.cyc = 0 /\ mo.cmd_ready = 0)
+NotGoal_drop_as_data_returns == ~(Narrow /\ r.fsm = "READ_DATA" /\ mo.rdata_valid = 1 /\ m.cyc = 0 /\ r.aborted = 0)
+NotGoal_aborted_write_equal == ~(~Narrow /\ r.fsm = "WRITE" /\ m.cyc = 0)
 \* ---------------------------------------------------------------- invariants
 NoClauseBroken == lastbad = {}
 Quiescent == r.fsm = "CMD" /\ (~Narrow \/ r.wr_valid = 0) /\ q = <<>> /\ ~obs.pend
